@@ -88,7 +88,7 @@ func diffDump(a, b []string) string {
 // C07 close / re-open preserves content; read-only opens change nothing.
 func C07(c *core.Ctx) {
 	c.Rule("driver histories (commits incl. deletes/expiry/value-log values, flushes, compactions, GC without deletes, managed and normal) stopped in states with an unflushed " +
-		"memtable, pending L0 tables and a value-log tail (every third normal-mode history instead ends with a delete-only transaction whose tombstones a compaction had to retain), then 3-5 close/re-open cycles alternating read-write, read-only and changed compaction settings; the full dump " +
+		"memtable, pending L0 tables and a value-log tail (every third normal-mode history instead ends with a delete-only transaction whose tombstones a compaction had to retain; encrypted histories re-open with a 1 ms data-key rotation period), then 3-5 close/re-open cycles alternating read-write, read-only and changed compaction settings; the full dump " +
 		"(every retained version of every key with value digest/meta/expiry, plus Get and iteration against the model) before Close must equal the dump after Open; around " +
 		"each read-only open + full read session the file tree hash (names, sizes, modes, SHA-256) must be unchanged; thorough tier traces the read-only session with strace " +
 		"and rejects any write-class open/truncate/unlink/rename; distinct = (options, mode, reopen kind sequence) classes")
@@ -130,6 +130,13 @@ func C07(c *core.Ctx) {
 				}
 				w.CloseSnapshots()
 				c.Count("reopen.histories_ending_in_compacted_tombstones", 1)
+			}
+			if len(w.Opt.EncryptionKey) > 0 {
+				// encrypted histories re-open with a data-key rotation period that has always elapsed:
+				// every read-write open generates a new data key, several within one second, and every
+				// read-only open finds the newest key older than the period
+				w.Opt.EncryptionKeyRotationDuration = time.Millisecond
+				c.Count("reopen.histories_with_elapsed_key_rotation", 1)
 			}
 			cycles := 3 + w.R.Intn(3)
 			for cy := 0; cy < cycles; cy++ {
